@@ -19,8 +19,8 @@ RULE = ("S->C: for every generated integer / bits / VarUInteger type (all widths
         "ValueFlow v1/v2) judges, for each real block of the repository (six), its BlockInfo and ValueFlow, every entry of its "
         "InMsgDescr and OutMsgDescr (leaf = extra value, found by the driver's own dictionary walk, which must list the same keys "
         "as the library) and every account record reachable in the old and new shard state of its Merkle update (records whose "
-        "sub-cells are pruned away are only required not to be mis-read). Quick takes at most 24 entries of each dictionary (spread over its keys) and skips "
-        "records that unfold beyond 300 cells (thorough: all entries, 800 cells). Non-trivial = "
+        "sub-cells are pruned away are only required not to be mis-read). Quick judges at most 24 entries of each dictionary (spread over its keys) and both tiers skip "
+        "records that unfold beyond 40 000 units of (64 per cell + data bits) (thorough: all entries, 50 000 units). Non-trivial = "
         "anything but the all-zero value; distinct = distinct (type, cell).")
 
 
@@ -54,33 +54,45 @@ def run(ck):
     ck.canary("S->C: an expectation with one extra bit is flagged", not vlib.read_ndjson(cr)[0]["match"])
     # ---- C->S core structures and real data
     schema = tlbcommon.schema_file(ck)
-    traces = cellcommon.drive_shards(ck, "C04")
+    traces = cellcommon.drive_shards(ck, "C04", extra=["schema=" + schema, "summary"])
     _t(ck, "drivers done (%d MB of events)" % (sum(os.path.getsize(t) for t in traces) >> 20))
     def val(tp):
-        return ck.validate_events("Tlb_Trace", "trace/Tlb_Trace.cfg", tp, timeout=3000, name="trace_" + os.path.basename(tp)[6:8], heap_gb=3,
-                                  extra_files={"schema.json": schema})
+        # big traces: lint / copy in a process of their own, only rejected lines parsed here (tlbcommon.validate_events_big)
+        return tlbcommon.validate_events_big(ck, "Tlb_Trace", "trace/Tlb_Trace.cfg", tp, timeout=3000, name="trace_" + os.path.basename(tp)[6:8], heap_gb=3,
+                                             extra_files={"schema.json": schema})
     kinds, distinct, cand = {}, set(), {}
     judged = {"enc": 0, "dec": 0, "enc+dec": 0, "none": 0}
     ctors = {}
-    real = {}          # type -> {records, by Enc, by Dec, with a non-empty dictionary judged by Dec, not decidable (pruned), too big}
+    real = {}          # type -> {records, by Enc, by Dec, by Dec only (no unique encoding), not comparable (pruned), too big}
     def rec(t):
         return real.setdefault(t, {"records": 0, "judged_by_Enc": 0, "judged_by_Dec": 0, "judged_by_Dec_only": 0, "pruned_not_comparable": 0, "too_big_skipped": 0})
+    def line_of(tp, ln):
+        with open(tp) as f:
+            for i, l in enumerate(f, 1):
+                if i == ln:
+                    return json.loads(l)
+        raise Infra("line %d of %s not found" % (ln, tp))
     for tp, (res, rejected) in zip(traces, vlib.parallel(val, traces, n=8 if ck.thorough else 16)):
         notes = cellcommon.notes_by_line(res)
         by = {t[1]: t[2] for t in res.tuples("JD")}
         for b in by.values():
             judged[b] = judged.get(b, 0) + 1
-        for ln, l in enumerate(open(tp), 1):
-            e = json.loads(l)
+        # the driver's side file: one short line per event (same line numbers as the trace)
+        summ = vlib.read_ndjson(tp + ".sum")
+        for ln, e in enumerate(summ, 1):
             kinds[e.get("k")] = kinds.get(e.get("k"), 0) + 1
-            if e.get("k") in ("ENC", "DECSRC", "REENC") and e.get("tree"):
-                distinct.add((e["type"], e["tree"][:200], len(e["tree"])))
+            if e.get("k") in ("ENC", "DECSRC", "REENC") and e.get("tl"):
+                distinct.add((e["type"], e["t200"], e["tl"]))
             if e.get("k") == "DECSRC" and e.get("dec") == "ok":
-                # candidates for the canaries below
-                if "dtx" not in cand and e["type"] == "Transaction" and not e["unique"] and e["v"][9][1] and len(l) < 60000:
-                    cand["dtx"] = e
+                # candidates for the samples and canaries below
+                if "dtx" not in cand and e["type"] == "Transaction" and not e["unique"] and e.get("outmsgs") and e["tl"] + e["vl"] < 20000:
+                    cand["dtx"] = (tp, ln)
                 if "binfo" not in cand and e["type"] == "BlockInfo":
-                    cand["binfo"] = e
+                    cand["binfo"] = (tp, ln)
+                if "dec" not in cand and e["type"] == "Message" and e["unique"]:
+                    cand["dec"] = (tp, ln)
+            if "enc" not in cand and e.get("k") == "ENC" and e.get("enc") == "ok" and e["type"] == "CommonMsgInfo":
+                cand["enc"] = (tp, ln)
             if e.get("k") == "TooBig":
                 rec(e["type"])["too_big_skipped"] += 1
             if e.get("k") != "DECSRC":
@@ -92,24 +104,15 @@ def run(ck):
             r["judged_by_Dec_only"] += b == "dec"
             r["pruned_not_comparable"] += (b == "none" and bool(e.get("exotic")))
             # which constructors of the tagged unions the real data exercised
-            try:
-                if e["type"] in ("InMsgDescrLeaf", "OutMsgDescrLeaf"):
-                    ctors[e["type"][:-9] + "." + e["v"][1]["c"]] = ctors.get(e["type"][:-9] + "." + e["v"][1]["c"], 0) + 1
-                elif e["type"] == "ShardAccountsLeaf" and b != "none":
-                    acc = e["v"][1][0]
-                    name = "Account." + acc["c"] + ("/" + acc["v"][2][2]["c"] if acc["c"] == "Account" else "")
-                    ctors[name] = ctors.get(name, 0) + 1
-                elif e["type"] == "ValueFlow":
-                    ctors["ValueFlow." + e["v"]["c"]] = ctors.get("ValueFlow." + e["v"]["c"], 0) + 1
-                elif e["type"] == "BlockInfo":
-                    name = "BlockInfo.prev_ref=" + e["v"][23]["c"] + (",master_ref" if e["v"][22]["has"] else "") + (",gen_software" if e["v"][21]["has"] else "")
-                    ctors[name] = ctors.get(name, 0) + 1
-            except (KeyError, IndexError, TypeError):
-                pass
+            if e.get("ctor") and not (e["type"] == "ShardAccountsLeaf" and b == "none"):
+                ctors[e["ctor"]] = ctors.get(e["ctor"], 0) + 1
         for rj in rejected:
             e = rj["event"]
             note = (notes.get(rj["line"]) or [["no-action"]])[0][0]
-            if e.get("k") == "Panic":
+            if e.get("k") == "Shape":
+                ck.report("C04:shape:%s" % e.get("type"), "the Go value of %s does not have the field list of its block.tlb definition (%s): %s; value %s" % (
+                    e.get("type"), e.get("where"), e.get("why"), e.get("vs", "")[:300]), {"kind": "trace", "event": cellcommon.slim(e, 6000)})
+            elif e.get("k") == "Panic":
                 ck.report("C04:real-data:" + e.get("panic", "")[:40], "real block data could not be read: " + e.get("panic", ""), {"kind": "trace", "event": cellcommon.slim(e)})
             else:
                 ck.report("C04:%s:%s:%s" % (e.get("k"), e.get("type"), note), "%s event for %s rejected (%s) %s" % (e.get("k"), e.get("type"), note, e.get("where", "")),
@@ -121,21 +124,30 @@ def run(ck):
     ck.extra["events_judged_by_Dec_only_nonunique_encoding"] = judged["dec"]
     ck.extra["real_records"] = real
     ck.extra["real_constructors_seen"] = dict(sorted(ctors.items()))
+    # where the Go structs and block.tlb disagree without any bit being different (not violations)
+    ck.extra["observations"] = [
+        {"where": "tlb/messages.go OutMsg.MsgExportDeqShort.NextWorkchain", "go": "uint32", "block.tlb": "next_workchain:int32",
+         "effect": "the same 32 bits; a negative workchain (masterchain -1) is held as 4294967295; the check keeps generated values below 2^31",
+         "real_records_with_this_constructor": ctors.get("OutMsg.MsgExportDeqShort", 0), "suggested_patch": "work/fixes_tlb/0002-outmsg-deq-short-next-workchain-int32.patch"},
+        {"where": "ShardIdent.ShardPfxBits Uint6 / IntermediateAddressRegular.UseDestBits Uint7 / DepthBalanceInfo.SplitDepth Uint5",
+         "block.tlb": "(#<= 60) / (#<= 96) / (#<= 30)", "effect": "same widths; the Go types also hold (and encode / decode without error) values above the bound; "
+         "the check keeps generated values within the bound"}]
     for t in ("Transaction", "Message", "BlockInfo", "ValueFlow", "InMsgDescrLeaf", "OutMsgDescrLeaf", "ShardAccountsLeaf"):
         if real.get(t, {}).get("judged_by_Dec", 0) < 1:
             raise Infra("no real %s record was judged by the specification's decoder" % t)
     if kinds.get("DECSRC", 0) < 50:
         raise Infra("only %d real messages were decoded" % kinds.get("DECSRC", 0))
-    evs = [e for e in vlib.read_ndjson(traces[0])]
-    enc = next(e for e in evs if e.get("k") == "ENC" and e["enc"] == "ok" and e["type"] == "CommonMsgInfo")
-    dec = next(e for e in evs if e.get("k") == "DECSRC" and e["type"] == "Message" and e["unique"] and e["dec"] == "ok")
+    for need in ("enc", "dec", "dtx", "binfo"):
+        if need not in cand:
+            raise Infra("no recorded event to build the '%s' canary from" % need)
+    enc, dec = line_of(*cand["enc"]), line_of(*cand["dec"])
     ck.sample({"direction": "C->S", "event": cellcommon.slim(enc, 1200)})
     c1 = copy.deepcopy(enc); c1["tree"] = c1["tree"].replace("0", "1", 1) if c1["tree"][2] == "0" else c1["tree"][:2] + "0" + c1["tree"][3:]
     c2 = copy.deepcopy(dec); c2["tree2"] = c2["tree2"][:-3] + "0]}" if not c2["tree2"].endswith("0]}") else c2["tree2"] + "x"
     c3 = copy.deepcopy(dec); c3["dec"] = "panic: boom"
     # the decoder's opinion alone. A transaction with out-messages (no unique encoding: only Dec judges its bits): one bit of
     # the out-message dictionary changed / the recorded value text changed. A BlockInfo: one flag bit of the structured source changed.
-    dtx, binfo = cand.get("dtx"), cand.get("binfo")
+    dtx, binfo = line_of(*cand["dtx"]), line_of(*cand["binfo"])
     if dtx is None or binfo is None:
         raise Infra("no transaction with out-messages / no BlockInfo record among the recorded events")
     c4 = copy.deepcopy(dtx)
